@@ -243,6 +243,7 @@ class ModelReplay(Listener):
         self.stop_on_first = stop_on_first
         self.calc_total = {}
         self.samples = []
+        self.first_crash = None
 
     def attach(self, handle, tracer):
         super().attach(handle, tracer)
@@ -330,7 +331,10 @@ class ModelReplay(Listener):
             n = type(outcome[1]).__name__
             n = n if n in ERRNAMES else "Other"
             y = "raise %s" % n
-            crashed = n
+            if self.first_crash is None:
+                self.first_crash = n
+        if self.first_crash is not None:
+            crashed = self.first_crash
         want = "%s wake=T nextpid=%d || %s" % (y, self.tr.next_pid, self.dg.sys(crashed))
         got = self.drv.ask(cmd)
         if len(self.samples) < 3:
